@@ -80,6 +80,7 @@ Proof.
   - exists b. cbn [stsc_add_entries S_entries_from]. rewrite app_nil_r. split; reflexivity.
   - cbn [raw_ok_from] in Hok. repeat (apply andb_prop in Hok; destruct Hok as [Hok ?]). unfold is_u32 in *.
     cbn [stsc_add_entries S_entries_from]. unfold stsc_add_entry, last_opt in *.
+    destruct (sdi =? 0) eqn:Esdi; [cbn [negb] in *; discriminate|].
     destruct (rev (sc_entries b)) as [|p r] eqn:Er.
     + assert (Hes : sc_entries b = []).
       { destruct (sc_entries b) as [|x l] eqn:E; [reflexivity|]. apply (f_equal (@length _)) in Er.
